@@ -183,7 +183,7 @@ func main() {
 }
 
 func OpenFile(filename string) *os.File {
-	f, err := os.OpenFile(filename, os.O_CREATE, os.ModeAppend)
+	f, err := os.OpenFile(filename, os.O_RDWR|os.O_CREATE, 0644)
 	if err != nil {
 		panic(err)
 	}
